@@ -16,7 +16,7 @@ BASES = {
     "o0": {"expr": "vw1.VwB0", "qual": "VwB0", "module": "vw1"},
     "in": {"expr": "vw0.VwOuter.VwInner", "qual": "VwOuter.VwInner", "module": "vw0"},
 }
-WRAPS = ("self", "newtype", "alias", "salias", "final", "fref", "nn", "classvar")
+WRAPS = ("self", "newtype", "alias", "salias", "final", "fref", "nn", "classvar", "alias_nt", "final_nt", "classvar_nn")
 
 _SUF = {"int": "I", "b0": "B0", "b1": "B1", "o0": "O0", "in": "IN"}
 
@@ -38,6 +38,8 @@ def _world():
         tgt.append({"d": "raw", "n": f"VwNN{s}", "src": f"VwNN{s} = typing.NewType('VwNN{s}', VwN{s})\n"})
         tgt.append({"d": "raw", "n": f"VwA{s}", "src": f"VwA{s} = typing.TypeAliasType('VwA{s}', {local})\n"})
         tgt.append({"d": "raw", "n": f"VwS{s}", "src": f"VwS{s} = typing.TypeAliasType('VwS{s}', {local!r})\n"})
+        # wrappers stacked on a NewType: an alias of it (Final / ClassVar of it are written inline)
+        tgt.append({"d": "raw", "n": f"VwAN{s}", "src": f"VwAN{s} = typing.TypeAliasType('VwAN{s}', VwN{s})\n"})
     return {"modules": [{"name": "vw0", "future": False, "decls": m0}, {"name": "vw1", "future": False, "decls": m1}]}
 
 
@@ -59,6 +61,12 @@ def key_expr(base: str, w: str) -> str:
         return f"typing.Final[{info['expr']}]"
     if w == "classvar":
         return f"typing.ClassVar[{info['expr']}]"
+    if w == "alias_nt":
+        return f"{mod}.VwAN{s}"
+    if w == "final_nt":
+        return f"typing.Final[{mod}.VwN{s}]"
+    if w == "classvar_nn":
+        return f"typing.ClassVar[{mod}.VwNN{s}]"
     if w == "fref":
         return f"typing.ForwardRef({info['qual']!r}, module={info['module']!r})"
     raise ValueError(w)
@@ -75,7 +83,7 @@ def mkey(base: str, w: str):
 
 
 def munwrap(k):
-    if k[0] in ("newtype", "nn", "alias", "final", "classvar"):
+    if k[0] in ("newtype", "nn", "alias", "final", "classvar", "alias_nt", "final_nt", "classvar_nn"):
         return ("self", k[1])
     if k[0] == "salias":
         info = BASES[k[1]]
